@@ -13,6 +13,7 @@ for a in sys.argv[3:]:
 r = pipeline.run_group(g, keep=True)
 print(r['status'], r['detail'][-3000:], 'solver_s=',r['solver_s'], 'wall=',r['wall_s'])
 for o in r['obligations']:
-    if o['status']!='SUCCESS': print('FAIL', o['id'], '|', o['desc'], '|', o['file'], o['line'])
+    if o['status']!='SUCCESS': print(o['status'], o['id'], '|', o['desc'], '|', o['file'], o['line'])
 print(len(r['obligations']), 'obligations;', [(c['desc'],c['status']) for c in r['canaries']])
+print('canary_s', r.get('canary_s'), r.get('canary_mode'))
 print('unwound:', r['unwind_bounds'], 'nobody:', r.get('no_body'))
